@@ -137,6 +137,17 @@ static void op(long c, long, vh::Tok& t)
     parseOut(d, n);
     free(d);
     printf("\n");
+  } else if(!strcmp(o, "ent")) {
+    String doc("<a v=\"&");
+    doc.append(unhexs(t.v[1]));
+    doc.append(";\"/>");
+    Xml::Element element;
+    printf("%ld ent ", c);
+    if(Xml::parse(doc, element) && element.attributes.size() == 1)
+      hexs(*element.attributes.begin());
+    else
+      printf("err");
+    printf("\n");
   } else if(!strcmp(o, "open")) {
     if(depth < maxDepth) { Xml::Element* e = new Xml::Element; e->line = 0; e->column = 0; e->type = unhexs(t.v[1]); stack[depth++] = e; }
   } else if(!strcmp(o, "attr")) {
